@@ -826,9 +826,12 @@ fn judge_peer_initiated(kill: Kill, with_error: bool, cond: &str, results: &[App
 pub async fn run_answered_with_error() {
     let level = choice(3); // 0 link, 1 session, 2 connection
     let crossing = choice(2) == 1; // the peer's frame is written before it has seen ours
+    // the application bounds its end() / close() with a time-out, the peer takes longer than that to
+    // answer, and the application asks again: the second call reports what the first would have
+    let abandoned = !crossing && level > 0 && choice(3) == 0;
     let ccfg = EndpointCfg::default_cfg();
     let (nab, nba, nd) = world::draw_net(false);
-    sim::set_config(format!("variant=answered-with-error level={} crossing={} {}", ["link", "session", "connection"][level as usize], crossing, nd));
+    sim::set_config(format!("variant=answered-with-error level={} crossing={} first-call-abandoned={} {}", ["link", "session", "connection"][level as usize], crossing, abandoned, nd));
     sim::mark_nontrivial();
     sim::set_panic_is_violation(true);
     let cvp = match peer::client_vs_peer(&ccfg, peer::open("peer", Some(65536), Some(255), None), nab, nba, Models::none()).await {
@@ -893,6 +896,9 @@ pub async fn run_answered_with_error() {
                             }
                         }
                         wire::END => {
+                            if abandoned && level == 1 {
+                                tokio::time::sleep(std::time::Duration::from_millis(600)).await;
+                            }
                             if !(sent_early && level == 1) {
                                 peer.send(f.channel, &peer::end(if level == 1 { err() } else { None })).await;
                             }
@@ -902,6 +908,9 @@ pub async fn run_answered_with_error() {
                             }
                         }
                         wire::CLOSE => {
+                            if abandoned && level == 2 {
+                                tokio::time::sleep(std::time::Duration::from_millis(600)).await;
+                            }
                             if !(sent_early && level == 2) {
                                 peer.send(0, &peer::close(if level == 2 { err() } else { None })).await;
                             }
@@ -935,13 +944,33 @@ pub async fn run_answered_with_error() {
         Some(r) => format!("{:?}", r),
         None => return,
     };
-    let r_sess = match sim::op("session end", session.end()).await {
-        Some(r) => format!("{:?}", r),
-        None => return,
+    let mut first_sess = None;
+    if abandoned && level == 1 {
+        match tokio::time::timeout(std::time::Duration::from_millis(150), session.end()).await {
+            Ok(r) => first_sess = Some(format!("{:?}", r)),
+            Err(_) => sim::fault("pending-teardown-call-abandoned"),
+        }
+    }
+    let r_sess = match first_sess {
+        Some(r) => r,
+        None => match sim::op("session end", session.end()).await {
+            Some(r) => format!("{:?}", r),
+            None => return,
+        },
     };
-    let r_conn = match sim::op("connection close", client.close()).await {
-        Some(r) => format!("{:?}", r),
-        None => return,
+    let mut first_conn = None;
+    if abandoned && level == 2 {
+        match tokio::time::timeout(std::time::Duration::from_millis(150), client.close()).await {
+            Ok(r) => first_conn = Some(format!("{:?}", r)),
+            Err(_) => sim::fault("pending-teardown-call-abandoned"),
+        }
+    }
+    let r_conn = match first_conn {
+        Some(r) => r,
+        None => match sim::op("connection close", client.close()).await {
+            Some(r) => format!("{:?}", r),
+            None => return,
+        },
     };
     if sim::op("peer script", peer_done.take()).await.is_none() {
         return;
